@@ -60,7 +60,7 @@ class Run(object):
         expect='violation': TLC must report an invariant violation (used for
         ASBUILT configs documenting an open finding)."""
         r = tlcrun.run_tlc(module, cfg, workers=workers, timeout=timeout, extra=extra, env=env, xmx=xmx,
-                           coverage=(self.tier == 'quick'))
+                           coverage=(self.tier == 'quick' and module in ('Scope', 'ReadUntil') and 'Terminates' not in cfg))
         self.states += r['distinct']
         self.transitions += r['states']
         self.cmds.append(r['cmd'])
@@ -129,14 +129,16 @@ class Run(object):
             if why.startswith('SELFCHECK'):
                 raise MachineryError('spec self-check failed on trace %r: %s' % (tid, why))
             path = self.write_replay(tr if replay_of is None else replay_of(tr),
-                                     {'module': module, 'event_index': idx, 'failing_clause': why})
+                                     {'module': module, 'event_index': idx, 'failing_clause': why,
+                                      'with_tables': with_tables},
+                                     tables=_tables_for(tr, tables))
             self.violations.append((why, path))
         return verdicts
 
     def _known_open(self, dev):
         return any(k.get('deviation') == dev and k.get('status') == 'open' for k in self.known)
 
-    def write_replay(self, obj, info):
+    def write_replay(self, obj, info, tables=None):
         os.makedirs(REPLAYS, exist_ok=True)
         self.nreplay += 1
         path = os.path.join(REPLAYS, '%s-%d.json' % (self.pid, self.nreplay))
@@ -145,7 +147,7 @@ class Run(object):
         self._replayed.add(clause)
         if self.nreplay <= 25 or first:
             with open(path, 'w') as f:
-                json.dump({'property': self.pid, 'info': info, 'case': obj}, f, default=repr)
+                json.dump({'property': self.pid, 'info': info, 'case': obj, 'tables': tables}, f, default=repr)
         return path
 
     def violation(self, why, case):
@@ -212,6 +214,48 @@ class Run(object):
         return 1 if self.violations else 0
 
 
+def _tables_for(tr, tables):
+    """Only the codec tables a trace refers to (replay files stay small)."""
+    if not tables:
+        return None
+    txt = json.dumps(tr)
+    return {k: v for k, v in tables.items() if k == '_' or ('"tid": "%s"' % k) in txt or ('"tid":"%s"' % k) in txt}
+
+
+def replay(pid, path):
+    """Re-judge a recorded counterexample with the current specification; for reader cases also re-run
+    the current code on the recorded input.  Exit 1 if it is (still) a violation."""
+    with open(path) as f:
+        rp = json.load(f)
+    info = rp['info']
+    case = rp['case']
+    module = info.get('module')
+    if not module:
+        print('replay file has no trace module: %s' % info)
+        return 2
+    cases = [dict(case, id='recorded')]
+    if module == 'Trace_Reader' and case.get('file') is not None:
+        from harness import rdriver
+        data = bytes(case['file'])
+        recs, end, line, col, msgok = rdriver.read_bytes(data)
+        now = dict(case, id='current-code', recs=recs, end=end, line=line, col=col, msgok=msgok)
+        if case.get('mode') == 'contract':
+            now['dom'] = rdriver.dom_load(data)
+        if case.get('mode') not in ('cut', 'unknown'):
+            cases.append(now)
+    verdicts, _st = tlcrun.validate(module, cases, rp.get('tables'), shards=1,
+                                    with_tables=info.get('with_tables', True))
+    bad = False
+    for c in cases:
+        st, idx, why = verdicts[c['id']]
+        print('%s: %s %s (event %d)' % (c['id'], st, why, idx))
+        if c['id'] == cases[-1]['id'] and st in ('FAIL', 'DEV'):
+            bad = True
+    if bad:
+        print('VIOLATION property=%s replay=%s' % (pid, path))
+    return 1 if bad else 0
+
+
 def main(pid, fn, argv):
     import argparse
     ap = argparse.ArgumentParser()
@@ -223,7 +267,7 @@ def main(pid, fn, argv):
     run = Run(pid, a.tier, seed)
     try:
         if a.replay:
-            return fn(run, replay=a.replay)
+            return replay(pid, a.replay)
         return fn(run)
     except MachineryError as e:
         sys.stderr.write('MACHINERY FAILURE in %s: %s\n' % (pid, e))
